@@ -518,6 +518,19 @@ def norm_block(stmts: list) -> list:
             cond = None
             if isinstance(b0, ast.If) and not b0.orelse and len(b0.body) == 1:
                 cond, b0 = b0.test, b0.body[0]
+            # d = {} ; for T in IT: [if C:] d[K] = V     ->   d = {K: V for T in IT [if C]}
+            if prev is not None and ((isinstance(prev[1], ast.Dict) and not prev[1].keys) or
+                                     (isinstance(prev[1], ast.Call) and not prev[1].args and not prev[1].keywords
+                                      and ast.unparse(prev[1].func).split(".")[-1] in ("dict", "OrderedDict"))):
+                if isinstance(b0, ast.Assign) and len(b0.targets) == 1 and isinstance(b0.targets[0], ast.Subscript) \
+                        and isinstance(b0.targets[0].value, ast.Name) and b0.targets[0].value.id == prev[0] \
+                        and prev[0] not in names_loaded(b0.value) and prev[0] not in names_loaded(b0.targets[0].slice):
+                    comp = ast.DictComp(key=b0.targets[0].slice, value=b0.value,
+                                        generators=[ast.comprehension(target=s.target, iter=s.iter, ifs=[cond] if cond is not None else [], is_async=0)])
+                    val = comp if isinstance(prev[1], ast.Dict) else ast.Call(func=prev[1].func, args=[comp], keywords=[])
+                    out[-1] = ast.copy_location(ast.Assign(targets=[ast.Name(id=prev[0], ctx=ast.Store())], value=val), out[-1])
+                    i += 1
+                    continue
             # ... if c: out.append(A) else: out.append(B)   ->   out = [A if c else B for ...]
             if prev is not None and isinstance(prev[1], ast.List) and not prev[1].elts and cond is None and isinstance(s.body[0], ast.If) \
                     and len(s.body[0].body) == 1 and len(s.body[0].orelse) == 1:
